@@ -39,7 +39,7 @@ import (
 // ---------------------------------------------------------------- plan
 
 type Plan struct {
-	Op         string `json:"op"` // load, loadfor (D ms), sleep (D ms), setkey (D=0 remove, 1 restore), shiftsecret, shiftpeercookie, shifths, tun, msg
+	Op         string `json:"op"` // load, loadfor (D ms), sleep (D ms), tbatch (Elems), setkey (D=0 remove, 1 restore), shiftsecret, shiftpeercookie, shifths, tun, msg
 	On         bool   `json:"on,omitempty"`
 	D          int    `json:"d,omitempty"`    // seconds
 	Peer       int    `json:"peer,omitempty"` // 0,1,2 = configured peers; 9 = stranger
@@ -51,6 +51,7 @@ type Plan struct {
 	Content    string `json:"content,omitempty"`
 	Size       int    `json:"size,omitempty"`
 	TypeWord   uint32 `json:"typeword,omitempty"`
+	Elems      []Plan `json:"elems,omitempty"` // tbatch: transport messages delivered in one receive batch
 }
 
 type StepRec struct {
@@ -209,7 +210,7 @@ func newRun() (*run, error) {
 	r.stranger = cosim.NewPeer("X", addrTable[5])
 	r.stranger.Configured = false
 	r.t0 = time.Now()
-	w, err := cosim.NewWorld(cosim.Config{Up: true}, true, a, b, c)
+	w, err := cosim.NewWorld(cosim.Config{Up: true, BindBatch: 8}, true, a, b, c)
 	if err != nil {
 		return nil, err
 	}
@@ -287,6 +288,13 @@ type built struct {
 	content string // gallina content
 	mac1    [16]byte
 	hasMac2 bool
+}
+
+func min64(a, b uint64) uint64 {
+	if a < b {
+		return a
+	}
+	return b
 }
 
 func junk16() (o [16]byte) { rand.Read(o[:]); return }
@@ -560,6 +568,25 @@ func (r *run) buildTransport(pl Plan) built {
 	case "badtag":
 		data = sess.Transport(r.ctr[pi]+1000, nil)
 		data[len(data)-1] ^= 1
+	case "badtagfar":
+		// live receiver index, counter far ahead of anything the session has used, tag does not verify
+		data = sess.Transport((1<<40)+uint64(mrand.Intn(1<<20)), nil)
+		data[len(data)-1-mrand.Intn(16)] ^= 0x20
+	case "badtagnear":
+		// counter just ahead of / equal to the next genuine one
+		data = sess.Transport(r.ctr[pi]+uint64(mrand.Intn(3)), nil)
+		data[len(data)-1] ^= 4
+	case "badtagbehind":
+		c := r.ctr[pi]
+		if c > 0 {
+			c -= 1 + uint64(mrand.Intn(int(min64(c, 50))))
+		}
+		data = sess.Transport(c, nil)
+		data[len(data)-2] ^= 8
+	case "wrongkeyfar":
+		// live receiver index and a far counter, sealed under a key the device does not have
+		s := &ref.Session{SendKey: ref.NewPrivate(), RemoteIdx: sess.RemoteIdx}
+		data = s.Transport((1<<50)+uint64(mrand.Intn(1000)), ref.Pad(ref.IPv4([4]byte{10, 0, 0, 2}, [4]byte{10, 9, 9, 9}, 40, 1)))
 	default:
 		data = sess.Transport(r.ctr[pi], nil)
 		r.ctr[pi]++
@@ -925,6 +952,58 @@ func (r *run) exec(pl Plan) (rec StepRec, settled bool) {
 	return
 }
 
+// execBatch delivers several transport messages in ONE receive batch: forged ones (live index, counters
+// ahead of / inside / behind the window, tag or key wrong) and at most one genuine one, at any position.  The
+// model sees one event per message; whatever the device did is attributed to the genuine message's position
+// (the last position if there is none): forged messages must leave no trace, exactly as if erased.
+func (r *run) execBatch(pl Plan) ([]StepRec, bool) {
+	var bs []built
+	var ds []sim.Dgram
+	var els []Plan
+	genuine := -1
+	for _, el := range pl.Elems {
+		el.Op, el.Typ = "msg", "transport"
+		if el.Content == "good" {
+			if genuine >= 0 {
+				el.Content = "badtagfar"
+			} else {
+				genuine = len(els)
+			}
+		}
+		b := r.buildTransport(el)
+		if el.Content == "good" && !strings.Contains(b.content, "Some") {
+			genuine = -1 // no live session: it is just another stranger's datagram
+		}
+		bs = append(bs, b)
+		els = append(els, el)
+		ds = append(ds, sim.Dgram{From: r.addrs[el.From%len(r.addrs)], Data: b.data})
+	}
+	if len(ds) == 0 {
+		return nil, true
+	}
+	at := genuine
+	if at < 0 {
+		at = len(ds) - 1
+	}
+	t := r.now()
+	out := r.w.InjectBatch(ds...)
+	body, hid := 0, 0
+	obs, txt, chg := r.observe(out, nil, &body, &hid)
+	var recs []StepRec
+	for i, b := range bs {
+		ip, port := r.addrDesc(r.addrs[els[i].From%len(r.addrs)])
+		r.nonce++
+		m := fmt.Sprintf("(M %d %d %d %d %d %d %s %d %d %s)", b.typ, b.size, b.body, b.sender, b.m1k, b.m1b, b.m2, ip, port, b.content)
+		rec := StepRec{Plan: els[i], Event: fmt.Sprintf("R %d %s false true %d 0", t+int64(i), m, r.nonce), Obs: fmt.Sprintf("OB [] [] false %d", r.epoch)}
+		if i == at {
+			rec.Obs, rec.Outs, rec.Chg = obs, txt, chg
+		}
+		rec.Note = fmt.Sprintf("element %d of a receive batch of %d", i, len(bs))
+		recs = append(recs, rec)
+	}
+	return recs, out.Settled
+}
+
 func runCase(gen string, plan []Plan) Case {
 	c := Case{Gen: gen, Plan: plan}
 	for attempt := 0; attempt < 3; attempt++ {
@@ -935,6 +1014,15 @@ func runCase(gen string, plan []Plan) Case {
 		c.Steps = nil
 		ok := true
 		for _, pl := range plan {
+			if pl.Op == "tbatch" {
+				recs, settled := r.execBatch(pl)
+				c.Steps = append(c.Steps, recs...)
+				if !settled {
+					ok = false
+					break
+				}
+				continue
+			}
 			rec, settled := r.exec(pl)
 			c.Steps = append(c.Steps, rec)
 			if !settled {
@@ -1105,6 +1193,43 @@ func genIdentity(r *mrand.Rand) []Plan {
 	// the identity comes back: MAC1 for it counts again, a handshake works again
 	p = append(p, Plan{Op: "setkey", D: 1}, msg("init", pi, r.Intn(len(addrTable)), "zerokey", "zero", "good"))
 	p = append(p, Plan{Op: "load", On: false}, Plan{Op: "shifths", Peer: pi, D: 1}, msg("init", pi, pi, "ok", "zero", "good"))
+	return p
+}
+
+var forgedTransport = []string{"badtagfar", "badtagfar", "wrongkeyfar", "badtag", "badtagnear", "badtagbehind", "replay", "badidx"}
+
+// forged transport messages on a LIVE receiver index (counters far ahead of, just ahead of, inside and behind
+// the window; tag or key wrong), alone and in one receive batch with a genuine one, each followed by genuine
+// traffic of the same session: the forged ones must be erasable from the history
+func genForgedTransport(r *mrand.Rand) []Plan {
+	pi := r.Intn(3)
+	p := []Plan{msg("init", pi, pi, "ok", "zero", "good"), msg("transport", pi, pi, "", "", "good")}
+	if r.Intn(3) == 0 {
+		p = append(p, Plan{Op: "load", On: true})
+	}
+	n := 3 + r.Intn(5)
+	for i := 0; i < n; i++ {
+		from := r.Intn(len(addrTable))
+		if r.Intn(2) == 0 {
+			p = append(p, msg("transport", pi, from, "", "", forgedTransport[r.Intn(len(forgedTransport))]))
+		} else {
+			var els []Plan
+			k := 1 + r.Intn(4)
+			g := r.Intn(k + 1) // position of the genuine one (k = none)
+			for j := 0; j < k; j++ {
+				c := forgedTransport[r.Intn(len(forgedTransport))]
+				if j == g {
+					c = "good"
+				}
+				els = append(els, Plan{Peer: pi, From: []int{pi, from}[r.Intn(2)], Content: c})
+			}
+			p = append(p, Plan{Op: "tbatch", Elems: els})
+		}
+		p = append(p, msg("transport", pi, pi, "", "", "good"))
+		if r.Intn(4) == 0 {
+			p = append(p, Plan{Op: "tun", Peer: pi})
+		}
+	}
 	return p
 }
 
@@ -1908,7 +2033,7 @@ func main() {
 			name string
 			f    func(*mrand.Rand) []Plan
 			w    int
-		}{{"stranger", genStranger, 3}, {"reserved-bytes", genReserved, 3}, {"identity", genIdentity, 3}, {"noload-authfail", genNoLoadAuthFail, 2}, {"roundtrip", genRoundTrip, 5},
+		}{{"stranger", genStranger, 3}, {"reserved-bytes", genReserved, 3}, {"identity", genIdentity, 3}, {"forged-transport", genForgedTransport, 3}, {"noload-authfail", genNoLoadAuthFail, 2}, {"roundtrip", genRoundTrip, 5},
 			{"load-response", genLoadResponse, 2}, {"device-gets-cookie", genDeviceGetsCookie, 3}, {"ratelimit", genRateLimit, 1}, {"mix", genMix, 4}}
 		tot := 0
 		for _, g := range gens {
